@@ -534,6 +534,10 @@ VARIABLES s, obs, ok, hist
 
 vars == <<s, obs, ok, hist>>
 View == <<s, ok>>
+(* for the small focused configurations: every history is a state of its own, i.e. TLC enumerates all
+   event sequences (paths), not only one path per abstract state - the real code may well be in
+   different states after histories that the specification does not distinguish *)
+ViewPaths == <<s, ok, hist>>
 
 Cfg0 == [rd |-> CfgRD, rc |-> CfgRC, ct |-> CfgCT, ka |-> CfgKA, predef |-> (1 :> <<"pre", "one">>)]
 
